@@ -688,6 +688,15 @@ theorem arrRows_subArr (s : State) (a : Arr) (sel : Sel) (hpos : ∀ i ∈ sel.p
   have hlt := hpos i hi
   simp [List.getElem?_eq_getElem hlt]
 
+/-- column `p'` of the result is column `p` of the operand cut by the selection. -/
+structure ColRel (s : State) (sel : Sel) (s' : State) (p p' : PropRef) : Prop where
+  key : p'.key = p.key
+  rows : arrRows s' p'.arr = sel.pos.map (fun i => (arrRows s p.arr)[i]?.getD [])
+  dt : arrDt s' p'.arr = arrDt s p.arr
+  trail : arrTrail s' p'.arr = arrTrail s p.arr
+  fresh : (sel.view = false ∨ sel.pos.length = 1) → s.heap.length ≤ p'.arr.buf
+  view : sel.view = true → sel.pos.length ≠ 1 → p'.arr = subArr p.arr sel
+
 /-- **what `atoms[index]` returns.**  `o'` is a new object with one atom per selected position; for
     every property `p` of the operand it has a property of the same name, dtype and trailing shape whose
     row `j` is row `sel.pos[j]` of `p` (row alignment: every property is cut by the same positions);
@@ -702,11 +711,8 @@ structure GetItemRes (s : State) (o : Nat) (sel : Sel) (o' : Nat) (s' : State) :
   objsLen : s'.objs.length = s.objs.length + 1
   syss : s'.syss = s.syss
   keys : (s'.obj o').keys = "atype" :: "pos" :: (s.obj o).keys.filter (fun k => k != "atype" && k != "pos")
-  cols : ∀ p ∈ (s.obj o).props, ∃ p' ∈ (s'.obj o').props, p'.key = p.key ∧
-    arrRows s' p'.arr = sel.pos.map (fun i => (arrRows s p.arr)[i]?.getD []) ∧
-    arrDt s' p'.arr = arrDt s p.arr ∧ arrTrail s' p'.arr = arrTrail s p.arr ∧
-    ((sel.view = false ∨ sel.pos.length = 1) → s.heap.length ≤ p'.arr.buf) ∧
-    (sel.view = true → sel.pos.length ≠ 1 → p'.arr = subArr p.arr sel)
+  cols : ∀ p ∈ (s.obj o).props, ∃ p' ∈ (s'.obj o').props, ColRel s sel s' p p'
+  colsRev : ∀ p' ∈ (s'.obj o').props, ∃ p ∈ (s.obj o).props, ColRel s sel s' p p'
 
 /-- what `Built` on the views of an operand means for the operand's properties. -/
 theorem getItemRes_of_built {κ κ1 : Nat → String} {s s1 s' : State} (h : InvK κ s) (o : Nat) (sel : Sel)
@@ -731,7 +737,26 @@ theorem getItemRes_of_built {κ κ1 : Nat → String} {s s1 s' : State} (h : Inv
   rw [hlen] at hb
   have hpkeys : (s'.obj s.objs.length).props.map (·.key) = (qa :: qp :: restOf views).map (·.key) :=
     hb.cols.map_eq (·.key) (·.key) (fun _ _ hr => hr.key)
-  refine ⟨rfl, ?_, hheap.trans hb.heap, ?_, ?_, hb.syss.trans hsys, ?_, ?_⟩
+  have hrel : ∀ p ∈ (s.obj o).props, ∀ q, ViewOf s sel κ1 s1 p q → ∀ p',
+      ColOf { s1 with objs := s1.objs ++ [⟨sel.pos.length, []⟩] } s' q p' → ColRel s sel s' p p' := by
+    intro p hp q hvo p' hcol
+    have hpl : ∀ i ∈ sel.pos, i < p.arr.idx.length := by rw [(h.obj_props o p hp).len]; exact hpos
+    refine ⟨hcol.key.trans hvo.key, ?_, hcol.dt.trans hvo.dt, hcol.trail.trans hvo.trail, ?_, ?_⟩
+    · rw [hcol.rows]
+      show arrRows s1 q.arr = _
+      rw [hvo.rows, arrRows_subArr s p.arr sel hpl]
+    · intro hc
+      by_cases h1 : q.arr.idx.length = 1
+      · exact Nat.le_trans hheap.len (hcol.fresh h1)
+      · rw [hcol.same h1]
+        rcases hc with hc | hc
+        · exact hvo.copy hc
+        · exact absurd (hvo.len.trans hc) h1
+    · intro hv hne
+      have h1 : q.arr.idx.length ≠ 1 := by rw [hvo.len]; exact hne
+      rw [hcol.same h1]
+      exact hvo.view hv
+  refine ⟨rfl, ?_, hheap.trans hb.heap, ?_, ?_, hb.syss.trans hsys, ?_, ?_, ?_⟩
   · rw [hb.natoms, ← hlen, obj_push_eq]
   · intro o'' ho''
     rw [hb.objs o'' (Nat.ne_of_lt ho''), obj_push_lt _ _ _ (by rw [hlen]; exact ho'')]
@@ -757,22 +782,17 @@ theorem getItemRes_of_built {κ κ1 : Nat → String} {s s1 s' : State} (h : Inv
           right; right
           exact List.mem_filter.mpr ⟨hq, by simp [h1, h2]⟩
     obtain ⟨p', hp', hcol⟩ := hb.cols.mem_left q hqin
-    have hpl : ∀ i ∈ sel.pos, i < p.arr.idx.length := by rw [(h.obj_props o p hp).len]; exact hpos
-    refine ⟨p', hp', hcol.key.trans hvo.key, ?_, hcol.dt.trans hvo.dt, hcol.trail.trans hvo.trail, ?_, ?_⟩
-    · rw [hcol.rows]
-      show arrRows s1 q.arr = _
-      rw [hvo.rows, arrRows_subArr s p.arr sel hpl]
-    · intro hc
-      by_cases h1 : q.arr.idx.length = 1
-      · exact Nat.le_trans hheap.len (hcol.fresh h1)
-      · rw [hcol.same h1]
-        rcases hc with hc | hc
-        · exact hvo.copy hc
-        · exact absurd (hvo.len.trans hc) h1
-    · intro hv hne
-      have h1 : q.arr.idx.length ≠ 1 := by rw [hvo.len]; exact hne
-      rw [hcol.same h1]
-      exact hvo.view hv
+    exact ⟨p', hp', hrel p hp q hvo p' hcol⟩
+  · intro p' hp'
+    obtain ⟨q, hqin, hcol⟩ := hb.cols.mem_right p' hp'
+    have hq : q ∈ views := by
+      simp only [List.mem_cons] at hqin
+      rcases hqin with rfl | rfl | hqin
+      · exact hqa
+      · exact hqp
+      · exact (List.mem_filter.mp hqin).1
+    obtain ⟨p, hp, hvo⟩ := hviews.mem_right q hq
+    exact ⟨p, hp, hrel p hp q hvo p' hcol⟩
 
 theorem views_len {s : State} {sel : Sel} {κ1 : Nat → String} {s1 : State} {props views : List PropRef}
     (hviews : All2 (fun p q => ViewOf s sel κ1 s1 p q) props views) :
@@ -840,5 +860,129 @@ theorem getItem_refines {κ : Nat → String} {s : State} (h : InvK κ s) (o : N
           have := getItemRes_of_built h o sel hpos views hviews hheap1 hobjs1 hsys1 qa qp hfa hfp hb
           rw [hid, hobjs1]
           exact this
+
+/-! ### `__deepcopy__` refines "copy records" -/
+
+/-- the selection of all rows, by copy. -/
+def copySel (n : Nat) : Sel := { pos := List.range n, view := false, scalar := false }
+
+theorem subArr_all (a : Arr) : subArr a (copySel a.idx.length) = a := by
+  cases a with
+  | mk buf idx =>
+    simp only [subArr, copySel, Arr.mk.injEq, true_and]
+    exact map_range_getD idx 0
+
+theorem deepcopy_views {κ : Nat → String} {s : State} (h : InvK κ s) (o : Nat) :
+    Post (mapEach (s.obj o).props (fun p => do
+        let a ← alloc (arrDt s p.arr) (arrTrail s p.arr) (arrRows s p.arr)
+        pure (⟨p.key, a⟩ : PropRef))) s
+      (fun r s1 => ∃ κ1, (InvK κ1 s1 ∧ Ext κ s κ1 s1 ∧ HeapExt s s1 ∧ s1.objs = s.objs ∧ s1.syss = s.syss) ∧
+        AExt κ s κ1 s1 ∧ ∀ views, r = .ok views →
+          All2 (fun p q => ViewOf s (copySel (s.obj o).natoms) κ1 s1 p q) (s.obj o).props views) := by
+  apply post_mapEach_ghost (s.obj o).props _
+    (fun g st => InvK g st ∧ Ext κ s g st ∧ HeapExt s st ∧ st.objs = s.objs ∧ st.syss = s.syss)
+    (fun p q g st => ViewOf s (copySel (s.obj o).natoms) g st p q) AExt
+    (fun g st => ⟨Ext.refl g st, HeapExt.refl st⟩)
+    (fun _ _ _ _ _ _ h1 h2 => ⟨h1.1.trans h2.1, h1.2.trans h2.2⟩)
+    (fun _ _ _ _ _ _ hr he => hr.mono he)
+  · intro p hp g st ⟨hg, hge, hgh, hgo, hgs⟩
+    have hp0 := h.obj_props o p hp
+    rw [post_bind]
+    apply Post.of_eq _ _ (alloc_eq _ _ _ st)
+    simp only []
+    rw [post_pure]
+    have hbuf : BufOK ⟨arrDt s p.arr, arrTrail s p.arr, arrRows s p.arr⟩ := arrRows_bufOK h hp0.valid
+    obtain ⟨hinv1, hext1⟩ := inv_alloc hg _ hbuf p.key
+    have hx := heapExt_alloc st ⟨arrDt s p.arr, arrTrail s p.arr, arrRows s p.arr⟩
+    refine ⟨_, ⟨hinv1, hge.trans hext1, hgh.trans hx, hgo, hgs⟩, ⟨hext1, hx⟩, ?_⟩
+    intro c hc
+    have : c = ⟨p.key, ⟨st.heap.length, List.range (arrRows s p.arr).length⟩⟩ := by
+      have : (Except.ok ⟨p.key, ⟨st.heap.length, List.range (arrRows s p.arr).length⟩⟩ : Except Err PropRef) = .ok c := hc
+      injection this with this; exact this.symm
+    subst this
+    have hlen : (arrRows s p.arr).length = (s.obj o).natoms := by simp [arrRows, hp0.len]
+    have hsub : subArr p.arr (copySel (s.obj o).natoms) = p.arr := by rw [← hp0.len]; exact subArr_all p.arr
+    have hnoview : (copySel (s.obj o).natoms).view = true →
+        (⟨st.heap.length, List.range (arrRows s p.arr).length⟩ : Arr) = subArr p.arr (copySel (s.obj o).natoms) := by
+      intro hc; simp [copySel] at hc
+    refine ⟨rfl, ⟨⟨by simp, ?_⟩, by simp [upd]⟩, by simp [copySel, hlen], ?_, ?_, ?_, hnoview, fun _ => hgh.len⟩
+    · intro i hi
+      rw [buf_append_eq]
+      simpa using hi
+    · show (List.range (arrRows s p.arr).length).map (fun i =>
+          (({ st with heap := st.heap ++ [⟨arrDt s p.arr, arrTrail s p.arr, arrRows s p.arr⟩] } : State).buf
+            st.heap.length).rows[i]?.getD []) = _
+      rw [buf_append_eq, hsub]
+      exact map_range_getD (arrRows s p.arr) []
+    · simp only [arrDt, buf_append_eq]
+    · simp only [arrTrail, buf_append_eq]
+  · exact ⟨h, Ext.refl κ s, HeapExt.refl s, rfl, rfl⟩
+
+/-- **what `deepcopy(atoms)` returns**: `GetItemRes` for the selection of all rows by copy — same
+    `natoms`, every property with the same name, dtype, trailing shape and rows, in buffers allocated by
+    the call; nothing that existed before is modified. -/
+theorem deepcopy_refines {κ : Nat → String} {s : State} (h : InvK κ s) (o : Nat) (hap : HasAP (s.obj o)) :
+    Post (deepcopy o) s (fun r s' => (∀ e, r = .error e → s' = s) ∧
+      ∀ o', r = .ok o' → GetItemRes s o (copySel (s.obj o).natoms) o' s') := by
+  unfold deepcopy
+  rw [post_atomic, post_bind_getS]
+  simp only []
+  rw [post_bind]
+  apply Post.mono (deepcopy_views h o)
+  intro r s1 ⟨κ1, ⟨hinv1, hext1, hheap1, hobjs1, hsys1⟩, _, hall⟩
+  cases r with
+  | error e =>
+    refine ⟨fun _ _ => trivial, ?_⟩
+    intro o' hc; cases hc
+  | ok views =>
+    simp only []
+    have hviews := hall views rfl
+    obtain ⟨aa, haa⟩ := Option.isSome_iff_exists.mp hap.1
+    obtain ⟨ap, hap'⟩ := Option.isSome_iff_exists.mp hap.2
+    obtain ⟨pa, hpa, hpak, _⟩ := find_mem _ _ _ haa
+    obtain ⟨pp, hpp, hppk, _⟩ := find_mem _ _ _ hap'
+    obtain ⟨qa0, hqa0, hva⟩ := hviews.mem_left pa hpa
+    obtain ⟨qp0, hqp0, hvp⟩ := hviews.mem_left pp hpp
+    obtain ⟨qa, hfa⟩ := find?_of_key views "atype" qa0 hqa0 (hva.key.trans hpak)
+    obtain ⟨qp, hfp⟩ := find?_of_key views "pos" qp0 hqp0 (hvp.key.trans hppk)
+    have hvkeys : views.map (·.key) = (s.obj o).props.map (·.key) :=
+      hviews.map_eq (·.key) (·.key) (fun _ _ hr => hr.key)
+    have hnd : (views.map (·.key)).Nodup := by
+      rw [hvkeys]
+      by_cases ho : o < s.objs.length
+      · exact h.nodup _ (obj_mem s o ho)
+      · rw [obj_ge s o (Nat.le_of_not_lt ho)]; simp [emptyObj]
+    have hcl : (copySel (s.obj o).natoms).pos.length = (s.obj o).natoms := by simp [copySel]
+    have hvl := views_len hviews
+    rw [hcl] at hvl
+    apply Post.mono (mkAtoms_views_spec hinv1 views (s.obj o).natoms hvl hnd qa qp hfa hfp)
+    intro r s2 ⟨herr, hok⟩
+    cases r with
+    | error e =>
+      refine ⟨fun _ _ => trivial, ?_⟩
+      intro o' hc; cases hc
+    | ok o' =>
+      refine ⟨?_, ?_⟩
+      · intro e hc; cases hc
+      · intro o'' ho''
+        have : o'' = o' := by
+          have : (Except.ok o' : Except Err Nat) = .ok o'' := ho''
+          injection this with this; exact this.symm
+        subst this
+        obtain ⟨hid, hb⟩ := hok o'' rfl
+        have hpos : ∀ p ∈ (copySel (s.obj o).natoms).pos, p < (s.obj o).natoms := by
+          intro p hp; simpa [copySel] using hp
+        rw [← hcl] at hb
+        have := getItemRes_of_built h o (copySel (s.obj o).natoms) hpos views hviews hheap1 hobjs1 hsys1 qa qp hfa hfp hb
+        rw [hid, hobjs1]
+        exact this
+
+/-- the rows selected by `copySel` are all the rows, in order. -/
+theorem copySel_rows (s : State) (a : Arr) :
+    (copySel a.idx.length).pos.map (fun i => (arrRows s a)[i]?.getD []) = arrRows s a := by
+  have : (arrRows s a).length = a.idx.length := by simp [arrRows]
+  simp only [copySel]
+  rw [← this]
+  exact map_range_getD _ _
 
 end Atomman.C06
